@@ -143,6 +143,11 @@ CALLEE_CLASSES = {
 CALLEE_USERS = ("C05", "C06", "C09", "C10", "C11", "C12", "C13", "C14", "C15", "C16", "C17", "C18", "C19", "C24", "C25", "C40")
 
 
+#: ... and the properties whose own files use the disposable containers / subjects as callees without being operator proofs (schedulers, sources,
+#: bridges): the container contracts they import are re-proved inside them as well
+CONTAINER_USERS = ("C28", "C29", "C30", "C31", "C32", "C33", "C34", "C35", "C37", "C41", "C42", "C43", "C44", "C04", "C07", "C08")
+
+
 #: properties decided by proofs about one subscription of one operator application: the frame condition that carries them to
 #: every subscription / application is checked for their own files (frame.run_local)
 STATE_ALLOCATION = ("C05", "C06", "C07", "C09", "C10", "C11", "C12", "C13", "C14", "C15", "C16", "C17", "C18", "C19", "C24", "C35", "C37",
@@ -209,7 +214,7 @@ def callee_units(prop, have):
 
     from .loader import REPO
 
-    if prop not in CALLEE_USERS:
+    if prop not in CALLEE_USERS + CONTAINER_USERS:
         return []
     wanted = []
     for rel in _property_files(prop):
